@@ -4,11 +4,11 @@ import (
 	"bytes"
 	"crypto/sha1"
 	"crypto/x509"
-	"encoding/asn1"
-	"net/http"
 	"crypto/x509/pkix"
+	"encoding/asn1"
 	"fmt"
 	"math/big"
+	"net/http"
 	"strings"
 	"time"
 
